@@ -52,6 +52,35 @@ type c05MX struct {
 	AD     bool   `json:"a_ad"`           // address records of the MX host are DNSSEC-authenticated
 	Listed bool   `json:"sts_listed"`     // the MTA-STS policy of the domain lists this host
 	Ext    bool   `json:"requiretls_ext"` // the server offers REQUIRETLS (go-smtp offers it over TLS only)
+	// "", down, greet421, greet554, mail451, mail550, rcpt450, rcpt550, data451, data554, dropdata
+	Fault string `json:"fault,omitempty"`
+}
+
+func c05FaultReply(fault string) func(stage, arg string) *smtp.SMTPError {
+	if fault == "" || fault == "down" || fault == "dropdata" {
+		return nil
+	}
+	return func(stage, arg string) *smtp.SMTPError {
+		switch {
+		case fault == "greet421" && stage == "session":
+			return peers.Err(421, [3]int{4, 3, 2}, "not now")
+		case fault == "greet554" && stage == "session":
+			return peers.Err(554, [3]int{5, 3, 2}, "no service here")
+		case fault == "mail451" && stage == "mail":
+			return peers.Err(451, [3]int{4, 7, 1}, "greylisted")
+		case fault == "mail550" && stage == "mail":
+			return peers.Err(550, [3]int{5, 7, 1}, "sender refused")
+		case fault == "rcpt450" && stage == "rcpt":
+			return peers.Err(450, [3]int{4, 2, 1}, "mailbox busy")
+		case fault == "rcpt550" && stage == "rcpt":
+			return peers.Err(550, [3]int{5, 1, 1}, "no such user")
+		case fault == "data451" && stage == "data":
+			return peers.Err(451, [3]int{4, 3, 0}, "try later")
+		case fault == "data554" && stage == "data":
+			return peers.Err(554, [3]int{5, 6, 0}, "content refused")
+		}
+		return nil
+	}
 }
 
 type c05Dom struct {
@@ -111,7 +140,11 @@ func c05World(c c05Case) (*peers.World, map[string]mockdns.Zone) {
 		for mi, mx := range d.MX {
 			host := c05Host(di, mi)
 			dz.MX = append(dz.MX, net.MX{Host: host + ".", Pref: uint16(10 * (mi + 1))})
-			w.Add(peers.Script{Host: host, TLS: mx.TLS, RequireTLS: mx.Ext, SMTPUTF8: true})
+			sc := peers.Script{Host: host, TLS: mx.TLS, RequireTLS: mx.Ext, SMTPUTF8: true, Down: mx.Fault == "down", Reply: c05FaultReply(mx.Fault)}
+			if mx.Fault == "dropdata" {
+				sc.DropAt = "data"
+			}
+			w.Add(sc)
 			zones[host+"."] = mockdns.Zone{A: []string{"127.0.0.1"}, AD: mx.AD}
 			tn := "_25._tcp." + host + "."
 			switch mx.TLSA {
@@ -179,6 +212,9 @@ func c05Policy(c c05Case, domain string) (*mtasts.Policy, error) {
 	}
 	return nil, errors.New("no policy")
 }
+
+// c16Hook sees every error the target returns (used by the C16 part built on this harness).
+var c16Hook func(where string, err error)
 
 var c05Release = func() {}
 
@@ -411,6 +447,9 @@ func c05Run(c c05Case) (fp, detail string, out string) {
 		for _, di := range m.Doms {
 			rc := "u@" + c05Domain(di)
 			err := dl.AddRcpt(ctx, rc, smtp.RcptOptions{})
+			if c16Hook != nil {
+				c16Hook("AddRcpt "+rc, err)
+			}
 			results[k] = append(results[k], c05RcptResult{Dom: di, Err: err})
 			if err == nil {
 				accepted[rc] = len(results[k]) - 1
@@ -424,6 +463,9 @@ func c05Run(c c05Case) (fp, detail string, out string) {
 				e, ok := st.errs[rc]
 				if !ok {
 					e = errors.New("no status")
+				}
+				if c16Hook != nil {
+					c16Hook("status "+rc, e)
 				}
 				results[k][i].Err = e
 				results[k][i].Sent = e == nil
@@ -860,6 +902,22 @@ func TestVerifC05(t *testing.T) {
 						d1 := c05Dom{STS: s1, MXFail: true, STSSlow: true, MX: []c05MX{{TLS: "valid", TLSA: "none", Listed: s1 != ""}}}
 						d2 := c05Dom{STS: s2, MX: []c05MX{m2}}
 						emit(c05Case{Cfg: c05Cfg{MTASTS: true, Local: local, Override: true, Relaxed: true}, Dom: []c05Dom{d1, d2}, Hist: []c05Msg{{Flag: f, Doms: []int{0, 1}}}})
+					}
+				}
+			}
+		}
+	}
+	// (F) first MX candidate out of order in a scripted way, fallback to the second
+	family = "F"
+	for _, cfg := range c05Cfgs(c05LocalsFew, false) {
+		for _, f := range c05Flags {
+			for _, sts := range stsModes {
+				for _, fault := range []string{"down", "greet421", "greet554", "mail451", "mail550", "rcpt550", "data451", "dropdata"} {
+					for _, l1 := range bools {
+						for _, m2 := range second {
+							m1 := c05MX{TLS: "valid", TLSA: "none", AD: true, Listed: l1, Ext: true, Fault: fault}
+							emit(c05Case{Cfg: cfg, Dom: []c05Dom{{STS: sts, MXAD: true, MX: []c05MX{m1, m2}}}, Hist: []c05Msg{{Flag: f, Doms: []int{0}}, {Flag: "", Doms: []int{0}}}})
+						}
 					}
 				}
 			}
